@@ -174,6 +174,7 @@ def run_vectors(ctx, vecs, label, passes=None, subranges=True, tmpdir=None):
         extra = dict(unit=unit, layout=layout)
         if ps.get('store') is not None:
             extra['store'] = ps['store']
+            extra['tabs'] = tabs        # a replay has to rebuild the whole block: its shape is part of the storage class
         try:
             op, wn = build(tn, pn, tabs, mode, unit, layout, xs, ys, ps.get('store'), tmpdir)
             err = None
@@ -224,13 +225,24 @@ def one_vector(ctx, v):
     """Replay of a single stored vector."""
     st = v.get('store')
     ps = store_pass(st) if st else dict(layout=v.get('layout', 'xsec'), unit=v.get('unit', 1.0))
+    tabs = v.get('tabs') or [v['tab']]
+    k = tabs.index(v['tab'])
     tmp = tempfile.mkdtemp(prefix='c04replay_') if st else None
     try:
-        op, wn = build(v['tn'], v['pn'], [v['tab']], v['mode'], ps['unit'], ps['layout'], v.get('xs', 1), v.get('ys', 1), st, tmp)
-        res = np.asarray(op.opacity(t_of(v['x'], v.get('xs', 1)), p_of(v['y'], v.get('ys', 1)))).ravel()
+        op, wn = build(v['tn'], v['pn'], tabs, v['mode'], ps['unit'], ps['layout'], v.get('xs', 1), v.get('ys', 1), st, tmp)
+        sub = v.get('sub')
+        T, P = t_of(v['x'], v.get('xs', 1)), p_of(v['y'], v.get('ys', 1))
+        if sub and len(tabs) > 1:
+            res = np.asarray(op.opacity(T, P, wn[sub[0]:sub[1]]))
+            k -= sub[0]
+        else:
+            res = np.asarray(op.opacity(T, P))
         close_op(op)
-        for clause, ok, detail in judge(v, float(res[0]), ps['unit'], ps.get('rel', REL), ps.get('relto_hi', False)):
-            ctx.verdict(clause, ok, cls='%s:%s:%s%s' % (v['reg'], v['mode'], pass_cls(ps), edge_cls(v)), detail=detail, vector=v)
+        res = res.reshape((-1,) if ps['layout'] == 'xsec' else (-1, 2))
+        gots = [res[k]] if ps['layout'] == 'xsec' else [res[k, 0], res[k, 1] / 3.0]
+        for got in gots:
+            for clause, ok, detail in judge(v, float(got), ps['unit'], ps.get('rel', REL), ps.get('relto_hi', False)):
+                ctx.verdict(clause, ok, cls='%s:%s:%s%s' % (v['reg'], v['mode'], pass_cls(ps), edge_cls(v)), detail=detail, vector=v)
     finally:
         if tmp:
             from ..fixtures import reset_caches
